@@ -125,6 +125,24 @@ def run(w) -> None:
                 if a != b:
                     w.violation("C15/enabled-contract-depends-on-interpreter-mode", "{}: normal vs {} differ".format(item, mname),
                                 {"item": item, "mode": mname, "slow": sname}, {"normal": data, mname: other["items"][item]})
+    # scenarios with explicitly enabled contracts only (incl. their misuse): the same outcome in every mode
+    for sname, _ in slows:
+        base = reports.get(("normal", sname))
+        if base is None:
+            continue
+        for mname in ("-O", "-OO"):
+            other = reports.get((mname, sname))
+            if other is None:
+                continue
+            for name, data in base.get("cross_mode", {}).items():
+                w.count("cross_mode_comparisons")
+                w.case(("cross-mode", name, mname, sname))
+                got = other.get("cross_mode", {}).get(name)
+                strip = lambda d: None if d is None else {k: (_ADDR.sub("0x", v) if isinstance(v, str) else v) for k, v in d.items() if k != "message"}
+                if strip(got) != strip(data):
+                    w.violation("C15/enabled-contract-depends-on-interpreter-mode", "scenario {}: normal interpreter gives {} but {} gives {}".format(
+                        name, strip(data), mname, strip(got)), {"item": "cross_mode/" + name, "mode": mname, "slow": sname},
+                        {"normal": data, mname: got})
     for key, rep in list(reports.items())[:2]:
         w.sample({"configuration": list(key), "item": "require/function/default", "report": rep["items"].get("require/function/default")})
     w.exhaustive = True
